@@ -77,7 +77,8 @@ ASSUMPTIONS = [
     'fractional digits); the rounding rule is not specified (half a unit either way accepted); currencies unknown to the ledger are outside',
     'positions: units and per-unit cost number/currency must read back; cost date and label of a Position / Inventory lot need not be shown; '
     'a Cost-typed cell must show number, currency, date and label',
-    'decimals: numeric equality on read-back (trailing zeros are not compared); cells in scientific notation are exempt from the alignment clause only; '
+    'decimals: numeric equality on read-back (trailing zeros are not compared); a decimal with a POSITIVE exponent (1E+3) counts as an integral part: its '
+    'string ends at the decimal-point offset of the column; only NEGATIVE-exponent scientific notation (1E-7) is exempt from the alignment clause; '
     'NaN / Infinity are outside',
     'dates read back as year-month-day integers (a year below 1000 printed without leading zeros is accepted)',
     'decimal-point alignment across ALL rows is required of decimal and Amount columns; Position columns and the n-th lot of each commodity of '
@@ -104,7 +105,8 @@ def alphabets(seed, thorough):
     d1, d2 = datetime.date(2020, 1, 3), datetime.date(2019, 12, 31)
     o_int = _rot([7, 42, 9, 63], seed)
     o_big = _rot([12345, 100000, 987654], seed)
-    o_dec = _rot([D('1234.5678'), D('98.7654'), D('500.125')], seed)
+    # ordinary decimals whose integral part is longer than any scientific-notation string of the alphabet
+    o_dec = _rot([D('98765432.10'), D('1234567.8'), D('500125.125')], seed)
     o_amt = _rot(['1.5', '2.5', '12.5', '7.25'], seed)
     o_str = _rot(['Ab cd', 'Xy z', 'Hello w'], seed)
     # more digits than the display precision AND rounding carries into a new leading digit (99.996 USD shows as 100.00)
@@ -125,7 +127,7 @@ def alphabets(seed, thorough):
     full = {
         'int': [None, -300, 0, o_int, o_big],
         'decimal': [None, D('-1.5'), D('0'), D('0.50'), o_dec, D('1E+3'), D('-0.001'), D(1) / D(3), D('0.5')]     # 0.5 == 0.50, 0 == 0.00: equal numbers that render differently
-                   + plus(D('2'), D('1E-7'), D('0.00'), D('-1.500')),
+                   + plus(D('2'), D('1E-7'), D('0.00'), D('-1.500'), D('1.2E+3'), D('-5E+1')),
         'str': [None, '', o_str, 'x' * 12, 'p,q', 'é"r', '  Indented', 'Cafe ', '  '] + plus('a', ' b '),
         'date': [None, datetime.date(2020, 2, 29), datetime.date(1999, 12, 31), datetime.date(900, 1, 1)],
         'bool': [None, True, False],
@@ -135,7 +137,7 @@ def alphabets(seed, thorough):
         'amount': [None, A(o_amt, 'USD'), A('-1000', 'HOOL'), A('0', 'EUR'), A('3.14159', 'USD'), A('-2.80750', 'USD'), A(carry, 'USD')]
                   + plus(A('100', 'JPY'), A('9.9996', 'HOOL')),
         'position': [None, hool1, P('-3', 'USD'), hool2, P('7', 'EUR'), P('-2.80750', 'USD'), P(carry, 'USD'), P('1', 'HOOL', C(carry, 'USD', d1))],
-        'cost': [None, C('2.50', 'USD', d1, 'lbl'), C('3.00', 'USD', d1), C('1234.5678', 'EUR', d2), C(carry, 'USD', d1, 'x'),
+        'cost': [None, C('2.50', 'USD', d1, 'lbl'), C('3.00', 'USD', d1), C('1234.5678', 'EUR', d2), C(carry, 'USD', d1, 'x'), C('100.00', 'USD', d1, ''),     # an EMPTY label is not no label
                  C('3.00', 'USD', d2, long_label)],      # labels of 1, 3 and 13 letters and none, in every row order
         'inventory': [None, I(), I(P('1', 'USD')), one_hool_cost, one_hool, invmix, inv2, inv3, inv7, inv_carry] + plus(I(P('-8.80750', 'USD'), P('7', 'EUR'), hool1, hool2)),
     }
@@ -326,6 +328,11 @@ def walk_body(body, nl, dtypes, rows, o, stats):
                 probs.append((pr[0], j, f'row {i} column {j} ({R.DTNAME[t]}): {pr[1]}'))
             elif v is not None and (t is D or t is R.Amount):
                 off = R.dot_offset(t, stats['cell'])
+                if off is None and t is D and v.as_tuple().exponent > 0:
+                    # positive exponent (1.2E+3, as ROUND(x, -2) gives): the whole string is the integral part and ends
+                    # where the decimal point of the column is
+                    off = len(stats['cell'].rstrip())
+                    stats['align_scientific_integral'] += 1
                 if off is None:
                     stats['align_exempt'] += 1
                 else:
@@ -659,6 +666,7 @@ def run(ctx):
         'cells_read_back': n['readback'], 'null_cells': n['null'], 'headers_checked': n['headers'], 'headers_cut_narrow': n['headers_cut'],
         'tables_rendered_with_expanded_rows': n['expanded_tables'],
         'columns_checked_for_decimal_point_alignment': n['align_columns'], 'cells_exempt_scientific_notation': n['align_exempt'],
+        'positive_exponent_decimals_aligned_as_integral_part': n['align_scientific_integral'],
         'csv_fields_compared_with_text_cells': n['csv_fields'],
         'lot_offset_groups_compared_across_rows': n['lot_offsets_compared'],
         'inventory_columns_exempt_from_lot_offsets_over_5_slots': n['lot_offset_columns_exempt_over_5_slots'],
